@@ -178,7 +178,7 @@ type ledger struct {
 	Fee          *big.Int // BTM in - BTM out (may be negative)
 	InRange      bool     // every amount and every per-asset input total <= 2^63-1
 	Sourced      bool     // every output asset has at least one input of that asset
-	ShapeOK      bool     // at most one coinbase and it is input 0; coinbase mixed with nothing non-BTM on the output side
+	ShapeOK      bool     // no coinbase, or a coinbase as the only input
 	VoteOK       bool     // vote outputs are BTM and >= MinVoteOutputAmount
 }
 
@@ -230,7 +230,9 @@ func reference(c caseTx) ledger {
 			l.Sourced = false
 		}
 	}
-	if l.Coinbases > 1 || (l.Coinbases == 1 && l.CoinbasePos != 0) {
+	// a coinbase is meant to be the only input of transaction 0 of a block; the statement does not
+	// oblige validation to accept it next to other inputs (nor forbids it): no completeness demand
+	if l.Coinbases > 1 || (l.Coinbases == 1 && (l.CoinbasePos != 0 || len(c.Ins) > 1)) {
 		l.ShapeOK = false
 	}
 	l.Fee = new(big.Int).Sub(l.In[asBTM], l.Out[asBTM])
@@ -742,7 +744,7 @@ func main() {
 	})
 	run.Assume("all control/issuance programs are OP_TRUE (retirements OP_FAIL), SerializedSize is set by hand to 300 because amounts above 2^63-1 cannot be serialised; transactions are injected at the TxData level (types.NewTx -> MapTx -> validation.ValidateTx)")
 	run.Assume("a coinbase input is worth the sum of all output amounts, as BTM (this is its definition: it has no amount of its own); a transaction containing a coinbase is validated as transaction 0 of its block")
-	run.Assume("completeness side: 'well-formed' = conserved, every amount and per-asset input total <= 2^63-1, every output asset has an input, at most one coinbase at position 0, vote outputs BTM >= 10^8; fee >= 10^7 counts as gas-sufficient for OP_TRUE programs and size 300")
+	run.Assume("completeness side: 'well-formed' = conserved, every amount and per-asset input total <= 2^63-1, every output asset has an input, a coinbase only as the single input, vote outputs BTM >= 10^8; fee >= 10^7 counts as gas-sufficient for OP_TRUE programs and size 300")
 	run.Assume("the amount alphabet contains every point where a checked-arithmetic branch flips (0, 1, 2^63-1 | 2^63, 2^64-1 | wrap) - an argument, not a proof (DESIGN.md section 5)")
 
 	all := shapes(maxIn, maxOut)
